@@ -274,9 +274,9 @@ theorem regInvB_of_RegInv {r : Registry} (h : RegInv r) : regInvB r = true := by
 /-- the monitor `C15 registry_inv` holds on every transition of the model -/
 theorem registry_step_monitor (env : Env) (cfg : Token.Cfg) (O : Oracle Token.TState) (w : World Token.TState) (op : Op)
     (hE : EnvOK env) (hI : RegInv w.st.reg) (hF : Fresh env w.st op) (ok : Bool) (resp : Resp) (ans : List Ans)
-    (hon : Bool) (lk : List (Addr × Denom × String × String)) (prev : Option (DOp × Bool × Resp × World Token.TState × Bool)) :
+    (hon cl : Bool) (lk : List (Addr × Denom × String × String)) (prev : Option (DOp × Bool × Resp × World Token.TState × Bool)) :
     c15_registryInv { env := env, cfg := cfg, pre := w, op := .k op, ok := ok, resp := resp,
-                      post := exec env O w op, answers := ans, honest := hon, lookups := lk, prev := prev } = true :=
+                      post := exec env O w op, answers := ans, honest := hon, lookups := lk, clean := cl, prev := prev } = true :=
   regInvB_of_RegInv (registry_step env O w op hE hI hF)
 
 /-! ## non-vacuity -/
